@@ -1,6 +1,6 @@
 # (generated sources, stride over the test data, glyphs in the big font, mutants, max words, max table items,
 #  share of the test-data fonts that also get Coq terms: 1/k, chosen by the seed; the predicate runs on all)
-N = {"quick": (160, 1, 1200, 80, 12000, 30000, 2), "thorough": (6000, 1, 8000, 2500, 40000, 120000, 1)}
+N = {"quick": (160, 1, 1200, 80, 12000, 30000, 2), "thorough": (1500, 1, 4000, 800, 40000, 120000, 1)}
 PROP = dict(
     id="C05",
     module="FV.C05.Props",
@@ -18,7 +18,7 @@ PROP = dict(
     rule="streams from one PRNG: (T) every compilable source under /repo/resources/testdata (UFO, designspace, "
          "Glyphs 2/3, packages); (L) fixed limit cases: no glyphs, only .notdef, one (empty) glyph, all-empty, "
          "composites of empty glyphs, component chains 1..120 deep, DAGs that use every level twice (up to the "
-         "65536-point error), references against glyph order, a 300-component glyph, 400 and 1200 (thorough 8000) "
+         "65536-point error), references against glyph order, a 300-component glyph, 400 and 1200 (thorough 4000) "
          "glyphs; (G) generated sources over the table mixes - static / 1-2 axes with 2-5 masters, kerning with "
          "groups, mark anchors, liga / ss01 with names / cv01 parameters / calt with nested lookups / locl / aalt / "
          "mark filtering sets, FEA GDEF / name tables, vertical metrics, gasp, meta, avar maps, MVAR, named "
